@@ -20,7 +20,7 @@ META = {
 }
 
 BINOPS = ['+', '-', '*', '/']
-OPERAND_KINDS = ['scalar', 'zerod', 'col', 'full', 'MA', 'MA1']
+OPERAND_KINDS = ['scalar', 'zerod', 'col', 'full', 'row', 'mat', 'MA', 'MA1']      # 'row': shape (rank,), 'mat': shape (rank, rank) - numpy broadcasts both against every matrix
 FLAGS = ['Real', 'Fourier', 'NonSpatial']
 
 
@@ -54,6 +54,12 @@ def operand(kind, rank, L, flag):
         return a, a
     if kind == 'full':
         a = gen(rank, L, 0.9)
+        return a, a
+    if kind == 'row':
+        a = 1.25 + 0.5 * np.arange(rank, dtype=float)
+        return a, a
+    if kind == 'mat':
+        a = gen(rank, 1, 0.7)[0].copy()
         return a, a
     if kind == 'MA':
         m = mk(rank, L, flag, 0.9)
@@ -721,7 +727,7 @@ def _worker(item):
 
 def run(rec, tier, seed):
     if tier == 'quick':
-        ranks, lengths, depth = [1, 2, 3], [1, 2, 7], 3
+        ranks, lengths, depth = [1, 2, 3], [1, 2, 3, 7], 3
     else:
         ranks, lengths, depth = [1, 2, 3, 4, 5], [1, 2, 3, 7, 64], 4
     items = [('matrix', r, lengths) for r in ranks]
